@@ -47,12 +47,17 @@ class DateV(Model):
     """datetime.date as days since 1970-01-01."""
     type_names = ('datetime.date',)
 
-    def __init__(self, days, label=None):
-        self.days, self.label = days, label
+    def __init__(self, days, label=None, ymd=None):
+        self.days, self.label, self.ymd = days, label, ymd      # ymd: (year, month, day) terms when the unit supplies them
 
     def py_getattr(self, I, name):
         if name == 'isoformat':
             return Builtin('isoformat', lambda: FStr(['date:', self.days]))
+        if name in ('year', 'month', 'day'):
+            src = self.label or self.ymd
+            if src is None:
+                raise Unsupported('date.' + name + ' of a date given only as a day number')
+            return src[('year', 'month', 'day').index(name)]
         raise Unsupported('date.' + name)
 
     def py_truth(self, I):
@@ -480,8 +485,8 @@ def oag_add(h):
     has_from, has_to = h.choice(2) == 1, h.choice(2) == 1
     h.ctx.named['open_ended_from'] = z3.BoolVal(not has_from)
     h.ctx.named['open_ended_to'] = z3.BoolVal(not has_to)
-    ef = DateV(h.int('eff_from_day')) if has_from else None
-    et = DateV(h.int('eff_to_day')) if has_to else None
+    ef = DateV(h.int('eff_from_day'), ymd=(h.int('eff_from_year'), h.int('eff_from_month'), h.int('eff_from_dom'))) if has_from else None
+    et = DateV(h.int('eff_to_day'), ymd=(h.int('eff_to_year'), h.int('eff_to_month'), h.int('eff_to_dom'))) if has_to else None
     TOD = I.lookup_fq('AEIC.types.time:TimeOfDay')
     e = h.new(O + ':CSVEntry', line=3, carrier='AA', fltno=12, depapt='ORG', depctry='US', arrapt='DST', arrctry='US',
               deptim=I.call(TOD, [8, 30], {}), arrtim=I.call(TOD, [10, 5], {}), arrday=0, days={'set'}, distance=h.int('distance_miles'),
@@ -504,13 +509,17 @@ def oag_add(h):
         return
 
     def is_default(v, month, day):
-        return isinstance(v, DateV) and v.label is not None and v.label[1:] == (month, day) and (z3.is_expr(v.label[0]) and z3.eq(v.label[0], year))
-    ok_from = (s[6] is ef) if has_from else is_default(s[6], 1, 1)
-    ok_to = (s[7] is et) if has_to else is_default(s[7], 12, 31)
-    h.ensure('open-ended-range-means-start-and-end-of-the-data-year', bool(ok_from and ok_to),
+        # a date built as date(<year>, month, day) whose year term equals the data year (a semantic question: the row's own
+        # year is a different symbol and may differ)
+        if not (isinstance(v, DateV) and v.label is not None and tuple(v.label[1:]) == (month, day)):
+            return z3.BoolVal(False)
+        return to_z3(v.label[0]) == year
+
+    def same(v, given, month, day):
+        return z3.BoolVal(v is given) if given is not None else is_default(v, month, day)
+    h.ensure('open-ended-range-means-start-and-end-of-the-data-year', z3.And(same(s[6], ef, 1, 1), same(s[7], et, 12, 31)),
              note=f'_add_schedule called with effective range ({s[6]!r}, {s[7]!r})')
-    ok_f = ((f[6] is ef) if has_from else is_default(f[6], 1, 1)) and ((f[7] is et) if has_to else is_default(f[7], 12, 31))
-    h.ensure('flight-record-has-the-same-effective-range', bool(ok_f))
+    h.ensure('flight-record-has-the-same-effective-range', z3.And(same(f[6], ef, 1, 1), same(f[7], et, 12, 31)))
     h.ensure('instances-belong-to-the-new-flight', z3.is_expr(s[3]) and z3.eq(s[3], fid) and s[4] is origin and s[5] is dest)
     c = calls['count']
     h.ensure('instance-count-recorded-on-the-flight', z3.is_expr(c[2]) and z3.eq(c[2], fid) and z3.is_expr(c[3]) and z3.eq(c[3], cnt))
@@ -600,15 +609,19 @@ def native_import_check(payload):
         rows = []
         for i in range(n):
             a, b = rnd.choice(pairs)
-            kind = rnd.choice(['range', 'single', 'open_from', 'open_to', 'open_both', 'dst', 'misordered'])
+            kind = rnd.choice(['range', 'single', 'open_from', 'open_to', 'open_both', 'dst', 'misordered', 'from_last_year_open_to', 'open_from_to_next_year'])
             start = dt.date(year, rnd.randint(1, 12), rnd.randint(1, 28))
             end = start + dt.timedelta(days=rnd.randint(0, 20))
             if kind == 'single':
                 end = start
             if kind == 'dst':
                 start, end = dt.date(year, 3, 8), dt.date(year, 3, 12)
-            ef = '00000000' if kind in ('open_from', 'open_both') else start.strftime('%Y%m%d')
-            et = '99999999' if kind in ('open_to', 'open_both') else end.strftime('%Y%m%d')
+            if kind == 'from_last_year_open_to':
+                start = dt.date(year - 1, 12, rnd.randint(20, 31))
+            if kind == 'open_from_to_next_year':
+                end = dt.date(year + 1, 1, rnd.randint(1, 10))
+            ef = '00000000' if kind in ('open_from', 'open_both', 'open_from_to_next_year') else start.strftime('%Y%m%d')
+            et = '99999999' if kind in ('open_to', 'open_both', 'from_last_year_open_to') else end.strftime('%Y%m%d')
             days = ''.join(str(d) for d in range(1, 8) if rnd.random() < 0.6) or '3'
             dep = (rnd.randint(0, 23), rnd.randint(0, 59))
             dur = rnd.randint(60, 600)
